@@ -79,6 +79,7 @@ func init() {
 			ruleReader2ChunkEOF(c, r, "")
 			ruleBlockSource(c, r, "")
 			ruleEOSTest(c, r, "")
+			ruleDictCapRange(c, r, "")
 			ruleRingWriters(c, r, "")
 			ruleCheckEncoding(c, r, "")
 			ruleDictCapDecode(c, r, "")
@@ -122,6 +123,9 @@ func init() {
 			ruleDecoderBounds(c, r, "")
 			ruleEncAvail(c, r, "")
 			ruleClassicVerify(c, r, "")
+			ruleMatchLen(c, r, "")
+			ruleLzmaHeaderDict(c, r, "")
+			ruleSizeBeforeOp(c, r, "")
 			ruleIO(c, r, c.Cone(nonNilFns(c.Func("lzma", "NewWriter"), c.Func("lzma", "WriterConfig.NewWriter"), c.Func("lzma", "Writer.Write"), c.Func("lzma", "Writer.Close"))...), "", true)
 		},
 	})
@@ -156,6 +160,7 @@ func init() {
 			ruleValidDictCap(c, r, "")
 			ruleLitInit(c, r, "")
 			ruleEOSTest(c, r, "")
+			ruleLzmaHeaderDict(c, r, "")
 			ruleClassicVerify(c, r, "")
 			// "every stream the library writes": a nil result of Write/Close means the bytes were delivered
 			wcone := c.Cone(nonNilFns(c.Func("lzma", "Writer.Write"), c.Func("lzma", "Writer.Close"), c.Func("lzma", "WriterConfig.NewWriter"))...)
